@@ -169,6 +169,43 @@ REGISTRY["C10"] = {
     "assumptions": ["bounded: concrete inputs only"],
 }
 
+REGISTRY["C20"] = {
+    "modules": ["contracts.formats"],
+    "category": "fault_enumeration",
+    "technique": "run-time contract on read_program (returns a recognised format object or the raw fallback within a time budget, raises nothing, a valid sample is claimed by its own format) evaluated on enumerated faults: truncations, header corruptions, random data",
+    "level_text": "Bounded (concrete inputs): every sample file intact, truncated at every offset below 130 and on a grid plus seeded offsets, with 1 to 6 corrupted header bytes, and random strings with and without magic numbers. A per-input alarm detects unbounded loops. No proof: the parsers read byte strings through struct / codecs, outside the symbolic engine's reach.",
+    "level_note": "bounded stand-in for a contract proof that is not within reach (DESIGN.md section 5); known findings are matched by failure signature.",
+    "design_ref": "DESIGN.md section 4 (C20)",
+    "rule": "faults enumerated per sample: truncations (dense below 130 bytes, grid and seeded above), 1-6 corrupted header bytes; random strings; distinct = different (sample, fault kind, outcome) triples",
+    "explanation": "fault enumeration on read_program",
+    "trusted_base": ["fault generator contracts/formats.py", "SIGALRM budget of 10 s per input"],
+    "assumptions": ["bounded: concrete inputs only"],
+}
+
+REGISTRY["C14"] = {
+    "modules": ["contracts.formats"],
+    "category": "other",
+    "technique": "contract-based deductive verification of Elf.getinfo/getfileoffset on stub program headers with symbolic fields (z3); run-time contracts on synthesised ELF images and generated HEX/SREC streams",
+    "level_text": "Bounded symbolic: address-to-segment and address-to-file-offset lookups are verified for ALL field values of program header tables with <= 3 loadable entries (the entry returned is the last one containing the address; offset = p_offset + (addr - p_vaddr); None iff no entry contains it). Run-time contracts (concrete, never counted as proved): synthesised ELF images in the four class/byte-order combinations with varying table positions against the generator's ground truth (header fields, program/section headers, entry point, file offsets, data); generated Intel-HEX / S-record streams decode to the records encoded and a wrong checksum is rejected by the format's own error. PE/COFF and Mach-O: only through the C20 samples, not covered here.",
+    "level_note": "the header layouts themselves are exercised through the synthesised images (built with the struct module from the ELF specification's field order), not proved; symbol tables, dynamic sections and PE/Mach-O tables are not covered by this check.",
+    "design_ref": "DESIGN.md section 4 (C14)",
+    "explanation": "bounded symbolic verification of the ELF address lookups + run-time contracts on synthesised ELF images and HEX/SREC streams",
+    "trusted_base": _TB + ["ELF image synthesiser and HEX/SREC encoders in contracts/formats.py (written from the format specifications)"],
+    "assumptions": _AS_COMMON,
+}
+
+REGISTRY["C15"] = {
+    "modules": ["contracts.formats"],
+    "category": "proof",
+    "technique": "contract-based deductive verification of Elf.loadsegment on a stub segment with symbolic p_vaddr/p_offset/p_filesz/p_memsz and a ghost file object: page arithmetic and zero fill discharged by z3 for all field values",
+    "level_text": "Proof level for the ELF segment-loading arithmetic: for ALL p_vaddr, p_offset (congruent modulo the page size), p_filesz <= p_memsz and the page sizes of the tier (2^8, 2^12, 2^16; thorough: 2^8..2^16) the mapping returned has a page-aligned base inside the page of p_vaddr, every file-backed byte lands at its virtual address, and the bytes in [filesz, memsz) are zero. The other clauses of the property (relocation slots, program counter, whole loaders for PE/Mach-O/HEX/SREC/raw) are not decided by this check.",
+    "level_note": "trusted: z3, symx engine, the ghost file object (records offset/size of the read, the cut and the zero padding). Whole-loader behaviour is not covered.",
+    "design_ref": "DESIGN.md section 4 (C15)",
+    "explanation": "proof of the ELF loadsegment page arithmetic and zero fill",
+    "trusted_base": _TB + ["ghost file object (contracts/formats.py: StubFile/GhostBytes)"],
+    "assumptions": _AS_COMMON + ["only Elf.loadsegment is under contract; loaders are not"],
+}
+
 NOT_APPLICABLE = {
     "C07": "the oracle is the behaviour of two external programs (binutils, LLVM): no contract on amoco's functions can state it without hand-writing a model of those decoders; a vendored table comparison is example-based testing, a different family",
 }
